@@ -150,3 +150,10 @@ Example undiscovered_source_instances :
     = Some (if reader_intersects_sampled_sources then [0; 1] else [0; 1; 2])%N /\
   map m_ord (spec_messages lenv (with_src [0; 5]%N (call [POSE])) true) = [0; 1; 2]%N.
 Proof. vm_compute. repeat split; reflexivity. Qed.
+
+(* before /repo 8223552 open() kept the cache: after reading wlog, open() of slog and read([Pose]) returned wlog's Pose *)
+Lemma legacy_open_keeps_cache :
+  ords_of (snd (read senv (reopen_gen false (run wenv init_state [call [POSE]])) (call [POSE]))) POSE = Some [1; 2; 8]%N /\
+  ords_of (fresh senv (call [POSE])) POSE = Some [0; 1; 2]%N /\
+  ords_of (snd (read senv (reopen (run wenv init_state [call [POSE]])) (call [POSE]))) POSE = Some [0; 1; 2]%N.
+Proof. vm_compute. repeat split; reflexivity. Qed.
